@@ -94,10 +94,14 @@ func runPromFanout(c *core.Ctx) {
 	}
 }
 
+func isGaugeCall(call *ssa.Call, method string) bool {
+	return call.Call.IsInvoke() && call.Call.Method.Name() == method && strings.HasSuffix(types.TypeString(call.Call.Value.Type(), nil), "prometheus.Gauge")
+}
+
 func gaugeCalls(fn *ssa.Function, method string) []*ssa.Call {
 	var out []*ssa.Call
 	for _, ci := range calls(fn) {
-		if call, ok := ci.(*ssa.Call); ok && call.Call.IsInvoke() && call.Call.Method.Name() == method && strings.HasSuffix(types.TypeString(call.Call.Value.Type(), nil), "prometheus.Gauge") {
+		if call, ok := ci.(*ssa.Call); ok && isGaugeCall(call, method) {
 			out = append(out, call)
 		}
 	}
@@ -167,27 +171,33 @@ func runPromGauge(c *core.Ctx) {
 		e := entry(fn, msgType)
 		good := false
 		detail := "no Dec for " + msgType
-		for _, call := range gaugeCalls(fn, "Dec") {
-			if assertedType(fn, call.Block(), "p:"+fn.Params[2].Name()) != msgType {
-				continue
+		// the decrement may sit in fn or in a private helper fn calls under the type's clause
+		an.Region(fn, nil, func(o an.Occ) {
+			call, isCall := o.In.(*ssa.Call)
+			if !isCall || !isGaugeCall(call, "Dec") {
+				return
 			}
+			if assertedType(fn, o.Block(), "p:"+fn.Params[2].Name()) != msgType {
+				return
+			}
+			host := call.Parent()
 			del := false
 			for _, in := range call.Block().Instrs {
 				if cc, ok := in.(*ssa.Call); ok {
-					if b, ok := cc.Call.Value.(*ssa.Builtin); ok && b.Name() == "delete" && promPath(cc.Call.Args[0])+"["+promPath(cc.Call.Args[1])+"]" == e {
+					if b, ok := cc.Call.Value.(*ssa.Builtin); ok && b.Name() == "delete" && promNorm(o.Path(cc.Call.Args[0]))+"["+promNorm(o.Path(cc.Call.Args[1]))+"]" == e {
 						del = true
 					}
 				}
 			}
 			present := false
-			for _, g := range an.Guards(fn, call.Block()) {
-				if promPath(g.V) == "ok("+e+")" && g.True {
+			for _, g := range an.Guards(host, call.Block()) {
+				if promNorm(o.Path(g.V)) == "ok("+e+")" && g.True {
 					present = true
 				}
 			}
 			good = del && present
 			detail = fmt.Sprintf("Dec with delete of the entry in the same block: %v, only when the entry was present: %v", del, present)
-		}
+		})
 		c.Check(good, nil, fname(c, fn), "dec["+msgType+"]", P.Pos(fn.Pos()), msgType+" of an open subscription: entry removed and gauge decremented together", "subscription gauge decrement is not tied to the removal of a present entry: "+detail+" — CLOSE of an unknown id (or a second CLOSED) drives the gauge negative")
 	}
 	checkInc(cm, "ClientReqMsg")
@@ -347,8 +357,9 @@ var (
 // promPath: access path with the two spellings of "the request id carried by
 // ctx" (the private helpers get/setRequestID, or their bodies written out)
 // folded into one.
-func promPath(v ssa.Value) string {
-	p := an.PathOf(v)
+func promPath(v ssa.Value) string { return promNorm(an.PathOf(v)) }
+
+func promNorm(p string) string {
 	p = reGetReqID1.ReplaceAllString(p, "REQID(")
 	p = reGetReqID2.ReplaceAllString(p, "REQID($1)")
 	p = reSetReqID1.ReplaceAllString(p, "SETREQID(")
